@@ -163,4 +163,11 @@ padchar(struct dt_spec_s s)
 	return (char)(0x20U ^ ((s.pad < DT_SPPAD_SPC) << 4U));
 }
 
+/* the reader that inverts padchar(), space padded fields are read
+ * by padstrtoi_lim() (see strops.h) */
+#define strtoi_lim_pad(s, str, ep, ll, ul)		\
+	((s).pad == DT_SPPAD_SPC			\
+	 ? padstrtoi_lim(str, ep, ll, ul)		\
+	 : strtoi_lim(str, ep, ll, ul))
+
 #endif	/* INCLUDED_token_h_ */
